@@ -315,12 +315,35 @@ fn main() {
             chk.absorb(stats);
         }
     }
+    // other ways of separating the extra token from the construct than one space: comments ended
+    // by each line terminator, bare line terminators, commas, a BOM
+    const JOINERS: [&str; 8] = [" # c\r", " # c\r\n", " # c\n", "#\r", "\r", "\r\n", ",", "\u{feff}"];
+    for (is_type, core) in &cores {
+        let mut st = Stats::default();
+        for t in T_AFFIX.iter() {
+            for j in JOINERS {
+                for input in [format!("{core}{j}{t}"), format!("{t}{j}{core}")] {
+                    st.states += 1;
+                    total_cases += 1;
+                    if *is_type {
+                        check(Entry::ParserType, &input, kf_open, &mut st);
+                        check(Entry::CompilerType, &input, kf_open, &mut st);
+                    } else {
+                        check(Entry::ParserFieldSet, &input, kf_open, &mut st);
+                        check(Entry::CompilerFieldSet, &input, kf_open, &mut st);
+                    }
+                }
+            }
+        }
+        chk.absorb(st);
+    }
     println!("cores {} shapes {:?} cases {}", cores.len(), shapes, total_cases);
     chk.bounds = json!({
         "affix_alphabet": T_AFFIX,
         "type_cores": TYPE_CORES,
         "field_set_cores": FIELD_SET_CORES,
         "affix_shapes_prefix_len_suffix_len": shapes.iter().map(|s| json!([s.0, s.1])).collect::<Vec<_>>(),
+        "joiners_for_one_extra_token": JOINERS,
         "cases": total_cases,
         "entry_points": ["Parser::parse_type", "ast::Type::parse", "Parser::parse_selection_set", "FieldSet::parse"],
     });
